@@ -225,5 +225,8 @@ func c01SmallCases(full bool) []c01Case {
 	for _, src := range c01Templates() {
 		cs = append(cs, c01Case{Group: "template", Src: strings.TrimSpace(src)})
 	}
+	for _, src := range interactionPrograms() {
+		cs = append(cs, c01Case{Group: "interaction", Src: src})
+	}
 	return cs
 }
